@@ -61,6 +61,9 @@ func (FixedWindow) New(cfg Config) fiber.Handler {
 		// Calculate when it resets in seconds
 		resetInSec := e.exp - ts
 
+		// Remember the window this hit is counted in
+		hitExp := e.exp
+
 		// Set how many hits we have left
 		remaining := maxRequests - e.currHits
 
@@ -90,9 +93,13 @@ func (FixedWindow) New(cfg Config) fiber.Handler {
 			// Lock entry
 			mux.Lock()
 			e = manager.get(key)
-			e.currHits--
-			remaining++
-			manager.set(key, e, cfg.Expiration)
+			// Only give the hit back to the window it was counted in. If that window
+			// is over (or the entry is gone) there is nothing left to decrement.
+			if e.exp == hitExp && e.currHits > 0 {
+				e.currHits--
+				remaining++
+				manager.set(key, e, cfg.Expiration)
+			}
 			// Unlock entry
 			mux.Unlock()
 		}
